@@ -2,7 +2,7 @@
    Everything is about the machines of Sup/Machine.v (supOFO / supARFO / supSOFO transcribed function by
    function) and holds for ANY machine state: any number of child specs, any pids, any wait set, hence after
    any history; the theorems over [reachable] quantify over all histories of machine calls explicitly. *)
-From Ergo Require Import Common.Base Sup.Intensity Sup.Machine Sup.MachineProofs.
+From Ergo Require Import Common.Base Sup.Intensity Sup.Machine Sup.MachineProofs Sup.OfoLoop.
 Local Open Scope Z_scope.
 
 (* No child termination goes unnoticed: the spec list after childTerminated is the old one with the pid of the
@@ -192,3 +192,34 @@ Theorem C08_autoshutdown_arfo : forall k s name pid reason now j sp,
     (s1, RAct (if is_nil run && k_auto k then Terminate reason else DoNothing)).
 Proof. exact arfo_autoshutdown. Qed.
 Print Assumptions C08_autoshutdown_arfo.
+
+(* The closed loop, one-for-one: for every number of children and EVERY history of child exits (any child, any
+   reason, any time, also the freshly restarted instance again), starting from any state meeting the invariant Iv
+   (all children of the spec list recorded with distinct pids, as after ProcessInit: ofo_start_meets_invariant):
+   as long as the supervisor has not started to stop, the children its machine records as running are exactly
+   the prescribed ones (a_view of the specification a_exit), and it starts to stop exactly when and why the
+   specification says (significant child / auto-shutdown / intensity exceeded), stopping every running child.
+   Missing for the full C08_quiescent_children: the same closed loop for all-for-one / rest-for-one / simple
+   one-for-one and for histories with management calls and spawn failures; there the statement is evaluated as the
+   monitor spec_prescribed on every observed history, and each single decision is a theorem above. *)
+Theorem C08_quiescent_children_ofo : forall k h s a next,
+  Iv k s a next ->
+  let '(s', a', st) := ofo_loop k s next a h in
+  match st with
+  | None => a_phase a' = ANormal /\ m_view k s' = a_view a' /\ shut s' = false /\ mode s' = 0
+  | Some act => stop_ok s' a' act
+  end.
+Proof. exact ofo_closed_loop. Qed.
+Print Assumptions C08_quiescent_children_ofo.
+
+Theorem C08_quiescent_children_ofo_from_init : forall k cs h,
+  k_kind k = OFO -> cs <> [] -> NoDup (map fst cs) ->
+  let s := start k cs 0 in
+  alive s = true /\
+  let '(s', a', st) := ofo_loop k (m s) (nextpid s) (a_init k cs) h in
+  match st with
+  | None => a_phase a' = ANormal /\ m_view k s' = a_view a' /\ shut s' = false /\ mode s' = 0
+  | Some act => stop_ok s' a' act
+  end.
+Proof. exact ofo_closed_loop_from_init. Qed.
+Print Assumptions C08_quiescent_children_ofo_from_init.
